@@ -52,9 +52,27 @@ Definition e_run (v : val) : val :=
   | _ => verr
   end.
 
+(* several messages one after the other through one chain:
+   (chain, subn table, [(sender, recipients, headers, body) ...]) -> [(failed, counter afterwards, envelopes) ...];
+   the input envelope of message k has identities n_k .. n_k+3, n_0 = 0, n_(k+1) = the counter after message k *)
+Definition dec_msg (v : val) : msg :=
+  match v with
+  | VL [VB snd; VL rc; VL hs; VB bd] => mkmsg snd (map get_b rc) (map dec_header hs) bd
+  | _ => mkmsg [] [] [] []
+  end.
+
+Definition e_msgs (v : val) : val :=
+  match v with
+  | VL [VL ch; VL tb; VL ms] =>
+      VL (map (fun s => VL [vbool (failed s); VN (next s); VL (map enc_env (results s))])
+              (run_messages N (tbl_subn (map dec_row tb)) ascii_lower masked masked masked
+                            (map dec_policy ch) 0 (map dec_msg ms)))
+  | _ => verr
+  end.
+
 (* RecipientDomainSplit._get_domain: () = ValueError *)
 Definition e_domain (v : val) : val :=
   match get_domain ascii_lower (get_b v) with Some d => VL [VB d] | None => VL [] end.
 
 Definition entries : list entry :=
-  [("c16_run"%string, e_run); ("c16_domain"%string, e_domain)].
+  [("c16_run"%string, e_run); ("c16_domain"%string, e_domain); ("c16_msgs"%string, e_msgs)].
